@@ -557,6 +557,11 @@ func (configgen *ConfigGeneratorImpl) buildGatewayHTTPRouteConfig(node *model.Pr
 			if !server.GetTls().GetHttpsRedirect() {
 				continue
 			}
+			// Server hosts may be qualified with a namespace ("ns/host", see sanitizeServerHostNamespace); the
+			// qualifier selects the VirtualServices that may bind, it is not part of the host clients address.
+			if _, name, found := strings.Cut(hostname, "/"); found {
+				hostname = name
+			}
 			hostname = strings.ToLower(hostname)
 			if vHost, exists := vHostDedupMap[host.Name(hostname)]; exists {
 				vHost.RequireTls = route.VirtualHost_ALL
